@@ -16,7 +16,7 @@ otherwise the first `bufSize` bytes -/
 def deliver (bufSize : Nat) (payload : Bytes) : Option Bytes :=
   if (payload.take bufSize).isEmpty then none else some (payload.take bufSize)
 
-/-- the component's default buffer size (`reporter.Config.BufferSize`, flag `--reporter-buffer`), also what the harness configures -/
+/-- the component's default buffer size (`reporter.Config.BufferSize`, flag `--reporter-buffer-size`), also what the harness configures -/
 def defaultBufferSize : Nat := 2048
 
 theorem deliver_nonempty {n : Nat} {p b : Bytes} (h : deliver n p = some b) : b ≠ [] := by
